@@ -489,11 +489,18 @@ def gen_dfxp_styled(rng, tag):
     nlang = rng.choice([1, 1, 2])
     for li, lang in enumerate(rng.sample(['en', 'fr', 'de', 'en&x'], nlang)):
         divattr = ' region="%s"' % rng.choice(regs) if rng.random() < 0.4 else ''
+        # a div that names no region while all its paragraphs name the same one (the div's layout is then
+        # derived from its descendants)
+        one_region = rng.choice(regs) if rng.random() < 0.3 else None
+        if one_region:
+            divattr = ''
         doc += ' <div xml:lang=%s%s>\n' % (quoteattr(lang), divattr)
         t = 0
         for k in range(rng.randrange(1, 5)):
             pattr = ''
-            if rng.random() < 0.6:
+            if one_region:
+                pattr += ' region="%s"' % one_region
+            elif rng.random() < 0.6:
                 pattr += ' region="%s"' % rng.choice(regs)
             if rng.random() < 0.5:
                 pattr += ' style="%s"' % rng.choice(ids)
@@ -507,7 +514,7 @@ def gen_dfxp_styled(rng, tag):
                 r = rng.random()
                 if r < 0.3:
                     sattr = ' tts:fontFamily=%s' % quoteattr(rng.choice(fams))
-                    if rng.random() < 0.5:
+                    if rng.random() < 0.5 and not one_region:
                         sattr += ' region="%s"' % rng.choice(regs)
                     if rng.random() < 0.3:
                         sattr += ' tts:textAlign="%s"' % rng.choice(['left', 'right', 'center'])
